@@ -57,9 +57,45 @@ type result struct {
 		Name   string `json:"name"`
 		Instrs int    `json:"instrs"`
 	} `json:"functions_encoded"`
-	Stubs any     `json:"stubs_used"`
-	WallS float64 `json:"wall_s"`
-	Exit  int     `json:"exit_code"`
+	Stubs        any     `json:"stubs_used"`
+	Replacements any     `json:"replacements_used"`
+	WallS        float64 `json:"wall_s"`
+	Exit         int     `json:"exit_code"`
+}
+
+// collectNames flattens the stubs_used / replacements_used value of a result (a list of strings, or
+// a map keyed by name) into a set.
+func collectNames(into map[string]bool, v any) {
+	switch x := v.(type) {
+	case []any:
+		for _, e := range x {
+			switch y := e.(type) {
+			case string:
+				into[y] = true
+			case map[string]any:
+				if n, ok := y["name"].(string); ok {
+					into[n] = true
+				}
+			}
+		}
+	case map[string]any:
+		for k, e := range x {
+			if l, ok := e.([]any); ok && len(l) > 0 {
+				collectNames(into, l)
+				continue
+			}
+			into[k] = true
+		}
+	}
+}
+
+func sortedKeys(m map[string]bool) []string {
+	out := make([]string, 0, len(m))
+	for k := range m {
+		out = append(out, k)
+	}
+	sort.Strings(out)
+	return out
 }
 
 type known struct {
@@ -157,6 +193,7 @@ func main() {
 		paths                                       int
 		samples                                     []any
 		funcs                                       = map[string]int{}
+		stubsUsed, contractsUsed                    = map[string]bool{}, map[string]bool{}
 		incon                                       []string
 		violLines, knownLines                       []string
 		engineErr                                   []string
@@ -169,6 +206,8 @@ func main() {
 			engineErr = append(engineErr, b.Name+": "+errsOut[i])
 			continue
 		}
+		collectNames(stubsUsed, r.Stubs)
+		collectNames(contractsUsed, r.Replacements)
 		for _, f := range r.Functions {
 			funcs[f.Name] = f.Instrs
 		}
@@ -260,6 +299,7 @@ func main() {
 		fmt.Printf("INCONCLUSIVE property=%s %s\n", *prop, tail(s, 300))
 	}
 
+	stubList, contractList := sortedKeys(stubsUsed), sortedKeys(contractsUsed)
 	fnames := make([]string, 0, len(funcs))
 	for n := range funcs {
 		fnames = append(fnames, n)
@@ -286,6 +326,9 @@ func main() {
 		"symbolic_paths":                               paths,
 		"queries":                                      map[string]any{"sat": qsat, "unsat": qunsat, "unknown": qunk, "solver_s": solverS},
 		"functions_encoded":                            fl,
+		"stubs_used":                                   stubList,
+		"contracts_used":                               contractList,
+		"assumptions":                                  def.Assumes,
 		"bounds":                                       def.Bounds,
 		"outside_claim":                                def.Outside,
 		"samples":                                      samples,
